@@ -35,6 +35,9 @@ LEVEL_TEXT = (
 )
 LEVEL_NOTE = "Trusted: vpchk/refs (self-tested on published vectors), CPython stdlib, pyca bcrypt, Hypothesis."
 TECHNIQUE = "Hypothesis differential testing + exhaustive enumeration against independent reference implementations"
+#: thorough tier: seed-dependent tasks are repeated under this many derived seeds (run.py); the listed task functions enumerate fixed domains
+THOROUGH_REPS = 2
+DETERMINISTIC_FNS = ('t_des_salts', 't_md4_lengths', 't_sasl_singles', 't_des_keys', 't_scrypt_validate')
 
 M64 = (1 << 64) - 1
 
